@@ -326,5 +326,9 @@ func (its *WiredDatatype) NeedPull(sseq uint64) bool {
 
 // NeedPush verifies if the datatype needs to push
 func (its *WiredDatatype) NeedPush() bool {
+	// A rollback in another goroutine sets the operation id back to its rollback point and replays
+	// up to where it was: looking at it meanwhile would say "nothing to push" although an operation
+	// is waiting. Wait for the transaction (or rollback) in progress, as every other read does.
+	defer its.BeginRead(nil)()
 	return its.checkPoint.Cseq < its.opID.GetSeq()
 }
